@@ -767,21 +767,21 @@ var closureSuffix = regexp.MustCompile(`(\$\d+)+$`)
 // plusDaysExceptions: reachable callers of Date.PlusDays with the reason why the step cannot
 // leave the representable range for any file content.
 var plusDaysExceptions = map[string]string{
-	"klog/service.NewDateTime":                                   "the day offset is -1/0/+1 and NewDateTime is only reached for records dated within one day of the clock date (futureEntriesChecker) or with the clock date itself",
-	"klog/app/cli.allDatesRange":                                 "walks forward one day at a time and stops as soon as the last record's (valid) date is reached",
-	"(*klog/service.unclosedOpenRangeChecker).Warn":              "receiver is the clock date (not file content)",
-	"(*klog/service.futureEntriesChecker).Warn":                  "receiver is the clock date (not file content)",
-	"klog/service.CloseOpenRanges":                               "receiver is the clock date (not file content)",
-	"(*klog/app/cli/util.FilterArgs).ApplyFilter":                "receivers are flag values / the clock date (C13 excludes query dates without representable neighbours)",
-	"(*klog/app/cli/util.AtDateArgs).AtDate":                     "receiver is the clock date (not file content)",
-	"(*klog/app/cli/util.AtDateAndTimeArgs).AtTime":              "receiver is the clock date (not file content)",
-	"klog/app/cli.splitIntoCurrentAndOther":                      "receiver is the clock date (not file content)",
-	"(klog/service/period.Week).Period":                          "period methods are reached from --period / shortcut flags and the clock only; their calendar-end defects are recorded under C15 (P15-total)",
-	"(klog/service/period.Week).Previous":                        "see Week.Period",
-	"(klog/service/period.Month).Period":                         "see Week.Period (and the forward step is guarded against 9999-12-31)",
-	"(klog/service/period.Month).Previous":                       "see Week.Period",
-	"(klog/service/period.Quarter).Previous":                     "see Week.Period",
-	"klog/service/period.NewWeekFromString":                    "operates on July 1st of the flag's year and at most 53 weeks around it: inside 0000..9999 except for W52/W53 of 9999 (flag value, not file content; recorded under C15)",
+	"klog/service.NewDateTime":                      "the day offset is -1/0/+1 and NewDateTime is only reached for records dated within one day of the clock date (futureEntriesChecker) or with the clock date itself",
+	"klog/app/cli.allDatesRange":                    "walks forward one day at a time and stops as soon as the last record's (valid) date is reached",
+	"(*klog/service.unclosedOpenRangeChecker).Warn": "receiver is the clock date (not file content)",
+	"(*klog/service.futureEntriesChecker).Warn":     "receiver is the clock date (not file content)",
+	"klog/service.CloseOpenRanges":                  "receiver is the clock date (not file content)",
+	"(*klog/app/cli/util.FilterArgs).ApplyFilter":   "receivers are flag values / the clock date (C13 excludes query dates without representable neighbours)",
+	"(*klog/app/cli/util.AtDateArgs).AtDate":        "receiver is the clock date (not file content)",
+	"(*klog/app/cli/util.AtDateAndTimeArgs).AtTime": "receiver is the clock date (not file content)",
+	"klog/app/cli.splitIntoCurrentAndOther":         "receiver is the clock date (not file content)",
+	"(klog/service/period.Week).Period":             "period methods are reached from --period / shortcut flags and the clock only; their calendar-end defects are recorded under C15 (P15-total)",
+	"(klog/service/period.Week).Previous":           "see Week.Period",
+	"(klog/service/period.Month).Period":            "see Week.Period (and the forward step is guarded against 9999-12-31)",
+	"(klog/service/period.Month).Previous":          "see Week.Period",
+	"(klog/service/period.Quarter).Previous":        "see Week.Period",
+	"klog/service/period.NewWeekFromString":         "operates on July 1st of the flag's year and at most 53 weeks around it: inside 0000..9999 except for W52/W53 of 9999 (flag value, not file content; recorded under C15)",
 }
 
 func plusDaysReceiver(site ssa.CallInstruction) ssa.Value {
@@ -1047,9 +1047,8 @@ func ruleP06Shape(p *Prog, r *Report) {
 		ba, _ := accWeb(blks)
 		src := func(c *ssa.Call) string {
 			a := c.Call.Args[1]
-			if mc, idx := callOf(a); mc != nil {
+			if mc, _ := callOf(a); mc != nil {
 				return fmt.Sprintf("%p", mc)
-				_ = idx
 			}
 			if base, fld := fieldLoad(a); fld != "" {
 				_ = fld
